@@ -161,6 +161,23 @@ def py_scalar(np_, dt, v):
     return v
 
 
+def noncontig(a, k):
+    """the same logical array (shape, values, dtype) in another MEMORY layout: 0 C-contiguous, 1 Fortran order,
+    2 a strided view (every second row of a larger buffer), 3 a swapaxes view of a contiguous buffer"""
+    a = np.asarray(a)
+    if a.ndim == 0 or a.size == 0 or k % 4 == 0:
+        return a
+    k = k % 4
+    if k == 1 and a.ndim >= 2:
+        return np.asfortranarray(a)
+    if k == 3 and a.ndim >= 2:
+        return np.ascontiguousarray(a.swapaxes(0, a.ndim - 1)).swapaxes(0, a.ndim - 1)
+    big = np.empty((2 * a.shape[0],) + a.shape[1:], dtype=a.dtype)
+    big[::2] = a
+    big[1::2] = a[::-1]
+    return big[::2]
+
+
 def to_py(e):
     t = e[0]
     if t == "n":
@@ -168,7 +185,9 @@ def to_py(e):
     if t == "s":
         return py_scalar(e[1], e[2], e[3])
     if t == "a":
-        return np.array(list(e[3]), dtype=NPT[e[1]] if e[1] != "str" else None).reshape(tuple(e[2]))
+        a = np.array(list(e[3]), dtype=NPT[e[1]] if e[1] != "str" else None).reshape(tuple(e[2]))
+        # memory layout is derived from the entry itself (deterministic, replayable): C / Fortran / strided / swapaxes
+        return noncontig(a, len(e[3]) + sum(e[2]) + len(e[2]))
     if t == "l":
         return tuple(e[3]) if e[1] else list(e[3])
     if t == "m":
@@ -842,7 +861,7 @@ def run_direct_pack(ctx, h5file):
             obj = np.empty(n, dtype=object)
             for i, v in enumerate(vals):
                 if v is not None:
-                    obj[i] = list(v) if as_list else np.array(v, dtype=NPT[dt]).reshape(shape)
+                    obj[i] = list(v) if as_list else noncontig(np.array(v, dtype=NPT[dt]).reshape(shape), i + trial)
             case = {"direct": True, "dtype": dt, "shape": list(shape), "values": json.loads(json.dumps(vals)), "list": as_list}
             req.append(f"directarr {dt} {size} [" + ",".join("N" if v is None else "[" + ",".join(sv_wire(dt, x) for x in v) + "]"
                                                            for v in vals) + "]")
